@@ -44,6 +44,9 @@ pub fn iter_mut_prefix<T: Q, const N: usize>(pre: Pre, tables: Tables, g: Grp, f
                         p.0 = w;
                         i.pay = wp;
                         want.set(k, wp, w);
+                        if !g.pay {
+                            want.any_payload(k);
+                        }
                     }
                 }
             }
@@ -55,7 +58,7 @@ pub fn iter_mut_prefix<T: Q, const N: usize>(pre: Pre, tables: Tables, g: Grp, f
     }
     if forget {
         // order unspecified, safety and contents not
-        let g2 = Grp { st: g.st, ord: false, model: g.model };
+        let g2 = Grp { st: g.st, ord: false, model: g.model, pay: g.pay };
         post(&mut q, &want, g2);
     } else {
         post(&mut q, &want, g);
